@@ -228,6 +228,25 @@ func structToMap(data any, visiting map[uintptr]bool) map[string]any {
 	return result
 }
 
+// StringKeyedMap lists the entries of a map whose key type is a string type (map[string]string,
+// a named type over map[string]any, map[K]V with K a named string type) as a map[string]any.
+// It reports false for everything else, including a nil map.
+func StringKeyedMap(data any) (map[string]any, bool) {
+	rv := reflect.ValueOf(data)
+	for rv.Kind() == reflect.Ptr && !rv.IsNil() {
+		rv = rv.Elem()
+	}
+	if rv.Kind() != reflect.Map || rv.IsNil() || rv.Type().Key().Kind() != reflect.String {
+		return nil, false
+	}
+	out := make(map[string]any, rv.Len())
+	iter := rv.MapRange()
+	for iter.Next() {
+		out[iter.Key().String()] = iter.Value().Interface()
+	}
+	return out, true
+}
+
 // AddGoNameAliases makes the JSON-tagged fields of the struct data (or pointer to struct) also
 // available in m under their Go field names, unless m already has such a key: a root struct can
 // be addressed by field name or JSON tag alike, whatever other source defines the same name.
